@@ -105,6 +105,7 @@ public:
         bool operator!=(const iterator& o) const { return p != o.p; }
         iterator& operator+=(size_t n) { adv(n); return *this; }
         iterator operator+(size_t n) const { iterator i(*this); i.adv(n); return i; }
+        long operator-(const iterator& o) const { return long(p - o.p); }
         void adv(size_t n) {
             // formed without pointer arithmetic UB: positions are tracked as integers relative to b
             long pos = (p - b) + (long)n;
